@@ -256,4 +256,31 @@ theorem all_congr_mem {α : Type} (p q : α → Bool) : ∀ (l : List α), (∀ 
   | a :: l, h => by
     simp only [List.all_cons, h a (by simp), all_congr_mem p q l (fun x hx => h x (by simp [hx]))]
 
+/-- DECLARATIVE reading of "instances repeating an earlier instance's identifier": the number of positions `j`
+    of the pool whose key also occurs at some EARLIER position (or in `seen`) -/
+def repeatsDecl {κ : Type} [BEq κ] (key : Inst → κ) (l : List Inst) (seen : List κ) : Nat :=
+  (List.range l.length).countP fun j =>
+    seen.contains (key (l.getD j 0)) || ((l.take j).map key).contains (key (l.getD j 0))
+
+theorem repeatsSpec_eq_decl {κ : Type} [BEq κ] (key : Inst → κ) (l : List Inst) (seen : List κ) :
+    repeatsSpec key l seen = repeatsDecl key l seen := by
+  induction l generalizing seen with
+  | nil => simp [repeatsSpec, repeatsDecl]
+  | cons x xs ih =>
+    unfold repeatsSpec
+    rw [ih]
+    unfold repeatsDecl
+    simp only [List.length_cons, List.range_succ_eq_map, List.countP_cons, List.countP_map]
+    have h0 : (seen.contains (key ((x :: xs).getD 0 0)) || (((x :: xs).take 0).map key).contains (key ((x :: xs).getD 0 0)))
+        = seen.contains (key x) := by simp
+    rw [h0]
+    have hfun : ((fun j => seen.contains (key ((x :: xs).getD j 0)) ||
+          (((x :: xs).take j).map key).contains (key ((x :: xs).getD j 0))) ∘ Nat.succ)
+        = fun j => (key x :: seen).contains (key (xs.getD j 0)) || ((xs.take j).map key).contains (key (xs.getD j 0)) := by
+      funext j
+      simp only [Function.comp, List.getD_cons_succ, List.take_succ_cons, List.map_cons, List.contains_cons]
+      cases (key (xs.getD j 0) == key x) <;> cases seen.contains (key (xs.getD j 0)) <;> simp
+    rw [hfun]
+    omega
+
 end Pyx.Check
